@@ -64,7 +64,18 @@ EXPLANATION = (
     "into canonical form with indices.sort_idx_canonical and AntiSymmetricTensor._need_bra_ket_swap evaluated from the "
     "source and mapped back: it has to be the canonical form of the term again, otherwise the map that "
     "find_compatible_terms finds is discarded because term - other.subs(map) stays a sum; the R07e equivariance checks "
-    "use the same evaluated canonical form.")
+    "use the same evaluated canonical form. R07i (views follow the container): an Expr record is initialised by "
+    "Expr.__init__ from the source around a wrapped sum of small tensor products; Expr.terms, Term.__init__/sympy/objects/"
+    "target/contracted/pattern/coupling, Obj.__init__/description/crude_pos and the mutators set_target_idx, set_sym_tensors, "
+    "set_antisym_tensors, make_real are evaluated from the source with the per-instance memoisation of misc.cached_member / "
+    "cached_property modelled on the records (tables kept in _function_cache / _property_cache of the instance, so code that "
+    "clears them is honoured). For every listed history (explicit targets -> Einstein convention, -> fewer / more explicit "
+    "targets, declared bra-ket (anti)symmetry followed by a change of the targets, real orbitals, ...) everything simplify reads "
+    "off the views handed out by Expr.terms AFTER the last mutator (wrapped term, target, contracted, provided targets, real / "
+    "sym / antisym tensors, pattern, descriptions, positions) is (1) the same whether or not the terms and their fingerprints "
+    "were read before each mutator, (2) target / contracted / provided targets equal the independently computed ones (sorted "
+    "provided tuple, or the indices occurring once), also seen from the objects, and (3) the descriptions obey the R07e "
+    "partition for the CURRENT target indices and tensor symmetries.")
 ASSUMPTIONS = [
     "completeness of the pattern fingerprints for arbitrary terms (that alpha-equivalent terms are always found) is "
     "decided only on the listed tables of small tensors/terms (bounded)",
@@ -81,7 +92,14 @@ ASSUMPTIONS = [
     "find_compatible_terms / simplify are evaluated for at most five terms and 24 maps per pair (bounded)",
     "R07f: histories of two calls on the listed input pairs; the sympy content of a term is an individual (equal iff the "
     "same term), assumptions other than the target indices are taken to be reflected in the sympy content (sym_tensors / "
-    "real modify the tensors themselves); state outside simplify.py (cached_member of the containers) is not modelled",
+    "real modify the tensors themselves); in R07f state outside simplify.py (cached_member of the containers) is not modelled - "
+    "that is R07i",
+    "R07i: the per-instance memoisation of misc.cached_member / cached_property is modelled (result stored per instance and "
+    "argument tuple with defaults filled in), not evaluated from misc.py; Term._apply_tensor_braket_sym / Term.make_real / "
+    "sympy.Add / sympify / get_symbols are modelled on the tensor tables (a new wrapped object with the declared symmetry / "
+    "real names); Expr.__getattr__ / Term.__getattr__ delegate `args` to the wrapped object (modelled); histories of at most "
+    "three mutators on the listed expressions (bounded); only views obtained from Expr.terms after the last mutator are "
+    "constrained - a Term object the caller kept from before is a stale view in the library as it is and is not judged",
 ]
 
 FCT = "simplify:find_compatible_terms"
